@@ -1,5 +1,6 @@
 """C13 - an op object stays consistent under any sequence of edits (structural part)."""
 import ast
+import re
 
 from .. import pyfront as pf
 from ..core import Check, AnalysisError
@@ -247,6 +248,35 @@ def build(tier, repo):
             else:
                 r5.ok(key, m.where(loop, fn))
     r5.require(6)
+    r6 = chk.rule("C13-R6", "solve() and its helpers write nothing reachable from the op except the documented results (status, values, multipliers)",
+                  "solving does not change the problem: a second solve / an edit after a solve sees the objective and constraints that were written down")
+    from ..effects import FunctionEffects
+    RESULT_WRITES = (r"^self\.status = ", r"\.multiplier\.value = ", r"\.value = ")
+    for mname in ("_inmatrixform", "solve", "tofile", "variables", "constraints", "inequalities", "equalities"):
+        fn = methods.get(mname)
+        if fn is None:
+            raise AnalysisError("op.%s not found" % mname)
+        fe = FunctionEffects(fn, m, containers={"self"}, protected={"self"})
+        fe.deep_attrs = True
+        fe.alias = {}
+        fe.sinks = []
+        fe._run()
+        seen = set()
+        for node, root, how, tgt in fe.sinks:
+            txt = pf.norm_expr(node)
+            if any(re.search(p_, txt) for p_ in RESULT_WRITES) and mname == "solve":
+                r6.ok("op.%s:result write %s" % (mname, txt[:50]), m.where(node, fn), "documented result")
+                continue
+            key = "op.%s:write to the op via %s" % (mname, txt[:60])
+            if key in seen:
+                continue
+            seen.add(key)
+            r6.violation(key, m.where(node, fn),
+                         "`%s` may share storage with an object of the op (%s) and is modified in place (%s): solving changes the stored problem"
+                         % (pf.norm_expr(tgt)[:40], root, how), "work on a copy (+f)", m.seg(pf.enclosing_stmt(node))[:80])
+        if not seen:
+            r6.ok("op.%s:op not written" % mname, m.where(fn, fn))
+    r6.require(5)
     return chk
 
 
